@@ -167,6 +167,10 @@ impl Iterator for MinimiserGenerator<'_> {
 
             if self.pos == self.seq.len() - 1 {
                 self.pos += 1;
+                // no run is open unless a full window has been seen
+                if self.m_active == u64::MAX {
+                    return None;
+                }
                 return Some((self.m_active, self.m_window_start, self.seq.len()));
             }
 
